@@ -404,7 +404,8 @@ class Parser:
     def raise_indentation_error(self, msg: str) -> None:
         """Raise an indentation error."""
         last_token = self._tokenizer.diagnose()
-        args = (self.filename, last_token.start[0], last_token.start[1] + 1, last_token.line)
+        line = last_token.line or self._tokenizer.get_lines([last_token.start[0]])[0]
+        args = (self.filename, last_token.start[0], last_token.start[1] + 1, line)
         args += (last_token.end[0], last_token.end[1] + 1)  # type: ignore
         raise IndentationError(msg, args)
 
